@@ -641,6 +641,10 @@ public:
 	[[nodiscard]] std::optional<CMsgPackReadBinaryScope<TReader>> OpenBinaryScope(size_t)
 	{
 		CheckEnd();
+		// Leave a non-binary value unread, the caller falls back to loading it as a generic array (which also handles the mismatched types policy)
+		if (mMsgPackReader->ReadValueType() != ValueType::BinaryArray) {
+			return std::nullopt;
+		}
 		size_t sz = 0;
 		const bool result = mMsgPackReader->ReadBinarySize(sz);
 		++mIndex;
@@ -769,6 +773,10 @@ public:
 	{
 		if (FindValueByKey(key))
 		{
+			// Leave a non-binary value unread, the caller falls back to loading it as a generic array (which also handles the mismatched types policy)
+			if (mMsgPackReader->ReadValueType() != ValueType::BinaryArray) {
+				return std::nullopt;
+			}
 			if (size_t sz = 0; mMsgPackReader->ReadBinarySize(sz)) {
 				return std::make_optional<CMsgPackReadBinaryScope<TReader>>(sz, mMsgPackReader, GetContext(), this);
 			}
@@ -914,6 +922,10 @@ public:
 
 	[[nodiscard]] std::optional<CMsgPackReadBinaryScope<IMsgPackReader>> OpenBinaryScope(size_t) const
 	{
+		// Leave a non-binary value unread, the caller falls back to loading it as a generic array (which also handles the mismatched types policy)
+		if (mMsgPackReader->ReadValueType() != ValueType::BinaryArray) {
+			return std::nullopt;
+		}
 		if (size_t sz = 0; mMsgPackReader->ReadBinarySize(sz)) {
 			return std::make_optional<CMsgPackReadBinaryScope<IMsgPackReader>>(sz, mMsgPackReader, GetContext());
 		}
